@@ -267,6 +267,15 @@ def check(prop, tier, seed, replay=None):
         if bad and len(run.violations) < 5:
             run.violation(f"{bad[0]} (text of length {len(text)} at width {W} after the same text at other widths)",
                           dict(kind="string-history", width=W, text=[ord(c) for c in text], ok=ok))
+    # texts that look like templates, paths or markup: a refusal is a ValueError whatever the text says
+    for W in (32, 256):
+        for frag in ("50%s", "%d", "100%", "%(x)s", "{0}", "{}", "\\n", "%-5f %s %s %s"):
+            for text, ok in (((frag + " ") * W, False), ((frag * W)[: W - 1], True), ("x" * (W - len(frag)) + frag, False)):
+                n_eval += 1
+                bad = check_one(W, text, ok)
+                if bad and len(run.violations) < 5:
+                    run.violation(f"{bad[0]} (text made of {frag!r}, length {len(text)}, width {W})",
+                                  dict(kind="string-template", width=W, text=[ord(c) for c in text], ok=ok))
     n_r, bad_r = read_side(rng, thorough)
     n_f, bad_f = through_fields(rng)
     n_eval += n_r + n_f
